@@ -7,7 +7,7 @@ sys.path.insert(0, os.path.join(HERE, "..", "harness"))
 sys.path.insert(0, "/repo/src")
 logging.disable(logging.CRITICAL)
 import coverage
-cov = coverage.Coverage(source=["/repo/src/pyqasm"], data_file=None)
+cov = coverage.Coverage(source=["/repo/src/pyqasm"], data_file=None, branch=("--branch" in sys.argv))
 cov.start()
 import pyqasm  # noqa
 import langcorr, modcorr, modcheck  # noqa
@@ -33,7 +33,8 @@ for prop in ["c10", "c11", "c12", "c13", "c14", "c15", "c16"]:
             pass
         n += 1
 cov.stop()
-out = sys.argv[1] if len(sys.argv) > 1 else "/tmp/cov.txt"
+args = [a for a in sys.argv[1:] if not a.startswith("--")]
+out = args[0] if args else "/tmp/cov.txt"
 with open(out, "w") as fh:
     cov.report(file=fh, show_missing=True, skip_empty=True)
 print("cases", n, "->", out)
